@@ -160,7 +160,7 @@ def run_callsite(case, obs):
         obs["counters"]["callsite_dropped"] = 1
         obs["nontrivial"] = False
         return obs
-    b = harness.run_b09(conv["out"])
+    b = harness.run_b09(conv["out"], storage=255)
     if b["status"] != "ok":
         obs["viols"].append({"sig": "C20/callsite/%s/b09-%s" % (case["what"], b["status"]),
                              "detail": {"source": text, "error": b["error"], "emitted": conv["out"][-600:]}})
